@@ -77,7 +77,15 @@ def check_case(case):
     if case["dict"]:
         open(os.path.join(d, "dict"), "wb").write(bytes(case["dict"]))
         cmd += ["-D", "dict"]
-    cmd += ["-o", "out.zck", "in.dat"]
+    outmode = case.get("outmode", 0)        # 0: -o out.zck; 1: no -o (zck names the archive after the input); 2: -o in a sub-directory
+    arch = "out.zck"
+    if outmode == 1:
+        arch = "in.dat.zck"; cmd += ["in.dat"]
+    elif outmode == 2:
+        os.makedirs(os.path.join(d, "sub")); arch = "sub/o.zck"; cmd += ["-o", arch, "in.dat"]
+    else:
+        cmd += ["-o", arch, "in.dat"]
+    cmd[1:1] = ["-v"] * case.get("verbose", 0)
     rc, err = run(cmd, d, case["close_stdin"])
     if rc in (-9, -24):
         return ("zck-hang", "zck did not terminate within 60 s of CPU time: %s" % " ".join(cmd[1:]))
@@ -87,13 +95,26 @@ def check_case(case):
             return ("zck-crash", "zck died (status %d): %s" % (rc, err[-300:]))
         return None
     label("zck-ok")
-    rc, err = run([os.path.join(TOOLS, "zck_read_header"), "-f", "out.zck"], d)
+    if not os.path.exists(os.path.join(d, arch)):
+        return ("archive-missing", "zck exited 0 but %s does not exist" % arch)
+    rc, err = run([os.path.join(TOOLS, "zck_read_header"), "-f", arch], d)
     if rc != 0:
         return ("archive-fails-verification", "zck exited 0 but zck_read_header -f fails (status %d): %s" % (rc, err[-200:]))
-    rc, err = run([os.path.join(TOOLS, "unzck"), "out.zck"], d, case["close_stdin"])
+    if case.get("to_stdout"):
+        label("unzck-c")
+        p = subprocess.run([os.path.join(TOOLS, "unzck"), "-c", arch], cwd=d, stdin=subprocess.DEVNULL, stdout=subprocess.PIPE, stderr=subprocess.PIPE, preexec_fn=limits)
+        rc, err, out = p.returncode, p.stderr.decode("latin1")[-600:], p.stdout
+    else:
+        rc, err = run([os.path.join(TOOLS, "unzck")] + ["-v"] * case.get("verbose", 0) + [arch], d, case["close_stdin"])
+        out = None
     if rc != 0:
         return ("unzck-fails", "zck exited 0 but unzck fails on its output (status %d): %s" % (rc, err[-200:]))
-    out = open(os.path.join(d, "out"), "rb").read()
+    if out is None:
+        # unzck writes next to the working directory, named after the archive without its .zck suffix
+        oname = os.path.basename(arch)[:-4]
+        if not os.path.exists(os.path.join(d, oname)):
+            return ("output-missing", "unzck exited 0 but %s does not exist" % oname)
+        out = open(os.path.join(d, oname), "rb").read()
     if out != data:
         i = 0
         while i < len(out) and i < len(data) and out[i] == data[i]:
@@ -160,7 +181,8 @@ def cases(draw):
     return {"split": split, "filler": filler, "length": length, "placements": [list(p) for p in placements], "tail_prefix": tail,
             "manual": draw(st.booleans()), "hash": draw(st.sampled_from([None, None, "sha256", "sha512", "sha512_128"])), "uncomp": draw(st.integers(0, 4)) == 0,
             "comp": draw(st.sampled_from([None, "zstd", "none"])), "dict": list(draw(st.binary(min_size=1, max_size=400))) if draw(st.integers(0, 4)) == 0 else None,
-            "close_stdin": draw(st.integers(0, 4)) == 0}
+            "close_stdin": draw(st.integers(0, 4)) == 0, "outmode": draw(st.sampled_from([0, 0, 1, 2])), "to_stdout": draw(st.integers(0, 3)) == 0,
+            "verbose": draw(st.sampled_from([0, 0, 0, 1, 3]))}
 
 
 N = A.cases or (60 if A.tier == "quick" else 1200)
